@@ -459,6 +459,26 @@ def r05_5(prog, rep):
                         if m and m.group(1) in {l_["n"] for l_ in f.locals} | {p_["n"] for p_ in f.params}:
                             out.add(m.group(2))
             return out
+        # a class that keeps its pending occurrences in an array writes all of them, not just the next one
+        sf = prog.fn(slots["seria"]) if slots.get("seria") else None
+        if sf is not None and sf.cfg:
+            loops_ = sf.cfg.natural_loops()
+            arr = {}
+            for b, i, x, line in sf.cfg.all_elems():
+                if not isinstance(x, dict):
+                    continue
+                for q in walk(sf.cfg.resolve(x)):
+                    if q.get("k") == "idx":
+                        bb = strip_casts(q["b"])
+                        if bb.get("k") == "mem" and bb.get("arrow") and re.search(r"echs_(event|instant)_t\s*\[", bb.get("t") or ""):
+                            arr.setdefault(bb["f"], []).append(any(b in blks for blks in loops_.values()))
+            for fld_, inl in sorted(arr.items()):
+                key = "%s/seria/pending-array(%s)" % (cname, fld_)
+                if any(inl):
+                    rep.ok(rid, key, sf.loc(), "the array `%s` is walked when the stream is written" % fld_)
+                else:
+                    rep.fail(rid, key, sf.loc(), "%s keeps its pending occurrences in the array `%s`, %s writes one element of it and no loop: of a list of RDATEs "
+                             "only the next one survives a checkpoint, an `echsq` submission or `echse merge`" % (cname, fld_, slots["seria"]))
         freed = substreams(slots.get("free"), ("free_echs_evstrm",))
         cloned = substreams(slots.get("clone"), ("clone_echs_evstrm",))
         seria = substreams(slots.get("seria"), ("echs_evstrm_seria",))
